@@ -1,9 +1,9 @@
 #!/bin/bash
 # tools/confirm_mutant.sh <worktree> <n> <crate> <lib-test-filter>
 # Confirms a seeded change independently: demonstration fails with it, passes without it, and the
-# crate's own tests still pass with it.  Uses one shared target dir; prints a summary line.
+# crate's own tests still pass with it.  Uses a target dir inside the worktree; prints a summary line.
 wt=$1; n=$2; crate=$3; filter=$4
-export CARGO_TARGET_DIR=/tmp/mutconfirm-target CARGO_NET_OFFLINE=true
+export CARGO_TARGET_DIR="$1/confirm-target" CARGO_NET_OFFLINE=true
 cd "$wt" || exit 2
 git checkout -q -- . 2>/dev/null
 demo=$(ls out/$n/*.rs | head -1)
